@@ -70,11 +70,32 @@ func Revoke() {
 		f2.Close()
 	}
 	N := vx.Param("N")
+	// faults=F: up to F metastore/KMS calls made by the post-revocation encrypts fail (any call, any position).
+	// A faulted encrypt may return an error; one that returns a record is held to the same deadline.
+	F := vx.Param("faults")
+	faultsSoFar := func() int {
+		return vx.Faulted("ext", "meta.Load") + vx.Faulted("ext", "meta.LoadLatest") + vx.Faulted("ext", "meta.Store") +
+			vx.Faulted("ext", "kms.EncryptKey") + vx.Faulted("ext", "kms.DecryptKey")
+	}
+	if F > 0 {
+		vx.FaultCap(F)
+	}
 	for i := 0; i < N; i++ {
 		ts, tn := tick()
+		before := faultsSoFar()
+		storeFaultsBefore := vx.Faulted("ext", "meta.Store")
+		if F > 0 {
+			vx.FaultBudget("ext", F)
+		}
 		drr, err := sess.Encrypt(env.Ctx, []byte{byte(i)})
-		vx.Assert("C05.encrypt_ok", err == nil)
+		vx.FaultBudget("ext", 0)
+		faulted := faultsSoFar() > before
+		vx.Assert("C05.encrypt_ok", err == nil || faulted)
 		if err != nil {
+			if faulted {
+				vx.Reach("C05.faulted_encrypt_failed")
+				continue
+			}
 			vx.Stop()
 		}
 		ik := drr.Key.ParentKeyMeta.Created
@@ -88,7 +109,11 @@ func Revoke() {
 		// premise: more than k intervals after the revocation, and a key with a later stamp can be created
 		late := vx.Not(vx.TimeLE(ts, tn, rs+k*I, rn))
 		canCreate := vx.TruncSec(ts, P) > revokedCreated
-		prem := vx.And(late, canCreate)
+		// "a key with a later stamp can be created" includes that the metastore accepts it: when the insert of the
+		// replacement key itself was made to fail, the SDK falls back to the newest stored key (the duplicate-key
+		// path) and the proviso of the property does not hold for that call
+		persisted := vx.Faulted("ext", "meta.Store") == storeFaultsBefore
+		prem := vx.And(vx.And(late, canCreate), persisted)
 		if which == 0 {
 			vx.Assert("C05.revoked_ik_not_used_after_interval", vx.Implies(prem, ik != ik0))
 		} else {
@@ -97,6 +122,7 @@ func Revoke() {
 		vx.Reach("C05.encrypt_after_revocation")
 	}
 	// records written under the revoked key remain decryptable
+	vx.FaultCap(0)
 	tick()
 	out, err := sess.Decrypt(env.Ctx, *first)
 	vx.Assert("C05.old_record_still_decrypts", vx.And(err == nil, vx.BytesEq(out, []byte{7})))
